@@ -240,6 +240,7 @@ theorem step_statics {O : Oracle} {c : Conf} {s : State} {op : Op} (h : Inv c s)
   | updStatic => simp [Op.isDHCP] at hd
   | rmStatic => simp [Op.isDHCP] at hd
   | restart => simp [Op.isDHCP] at hd
+  | reorder => simp [Op.isDHCP] at hd
 
 theorem obs_reservationsOf (c : Conf) (s : State) :
     reservationsOf (obsOf c s) = ((statics s).map Lease.view).map LeaseV.norm := by
@@ -266,5 +267,6 @@ theorem obs_reservationsKept {O : Oracle} {c : Conf} {s : State} {op : Op} (h : 
   | updStatic => rfl
   | rmStatic => rfl
   | restart => rfl
+  | reorder => rfl
 
 end AGH.C10
